@@ -61,8 +61,39 @@ func inFold(list []string, name string) bool {
 	return false
 }
 
+// tNsec is the sub-second part of the verification instant: "date-ns" is one nanosecond before
+// date, "expires+ns" / "expires+ms" lie inside the second after expires (outside the window:
+// the property says "every instant of [date, expires]", not every whole second).
+func tNsec(c *Case) int64 {
+	switch c.Time {
+	case "date-ns":
+		return 999_999_999
+	case "date+ns", "expires+ns":
+		return 1
+	case "expires+ms":
+		return 999_000_000
+	case "expires-ns":
+		return 999_999_999
+	}
+	return 0
+}
+
+// afterExpires: strictly later than expires.
+func afterExpires(c *Case) bool {
+	off := tOffset(c)
+	return off > c.Lifetime || (off == c.Lifetime && tNsec(c) > 0)
+}
+
 func tOffset(c *Case) int64 {
 	switch c.Time {
+	case "date-ns":
+		return -1
+	case "date+ns":
+		return 0
+	case "expires-ns":
+		return c.Lifetime - 1
+	case "expires+ns", "expires+ms":
+		return c.Lifetime
 	case "date-1":
 		return -1
 	case "date":
@@ -89,7 +120,7 @@ func refPolicy(c *Case) (accept bool, reasons []string) {
 	if off < 0 {
 		no("not yet valid")
 	}
-	if off > c.Lifetime {
+	if afterExpires(c) {
 		no("expired")
 	}
 	if c.Lifetime > 604800 {
@@ -216,7 +247,7 @@ var prop = vh.Define("C09", "policy", func(c Case, r *vh.R) {
 	}
 	want, reasons := refPolicy(&c)
 	t := baseDate + tOffset(&c)
-	p, got, lg := sxgkit.VerifyLog(e, t, sxgkit.Fetcher(c.Fixture))
+	p, got, lg := sxgkit.VerifyLogAt(e, t, tNsec(&c), sxgkit.Fetcher(c.Fixture))
 	r.Class(c.Version)
 	if want {
 		r.Class("expect-accept")
@@ -263,7 +294,7 @@ func allGood(t *rapid.T) Case {
 		Version:     rapid.SampledFrom([]string{"1b1", "1b2", "1b3", "1b3"}).Draw(t, "version"),
 		Fixture:     rapid.SampledFrom([]int{0, 1}).Draw(t, "fixture"),
 		Validity:    "same",
-		Time:        rapid.SampledFrom([]string{"mid", "mid", "date", "date+1", "expires-1", "expires"}).Draw(t, "time"),
+		Time:        rapid.SampledFrom([]string{"mid", "mid", "date", "date+1", "expires-1", "expires", "date+ns", "expires-ns"}).Draw(t, "time"),
 		Lifetime:    rapid.SampledFrom([]int64{604800, 604799, 3600, 2, 86400}).Draw(t, "lifetime"),
 		Integrity:   "right",
 		Method:      rapid.SampledFrom([]string{"GET", "GET", "HEAD"}).Draw(t, "method"),
@@ -310,7 +341,7 @@ func fault(t *rapid.T, c *Case) {
 	case "validity":
 		c.Validity = rapid.SampledFrom([]string{"http", "otherhost", "otherport", "subdomain"}).Draw(t, "validity")
 	case "time":
-		c.Time = rapid.SampledFrom([]string{"date-1", "expires+1"}).Draw(t, "badtime")
+		c.Time = rapid.SampledFrom([]string{"date-1", "expires+1", "date-ns", "expires+ns", "expires+ms"}).Draw(t, "badtime")
 	case "lifetime":
 		c.Lifetime = rapid.SampledFrom([]int64{604801, 604801, 700000, 1 << 31}).Draw(t, "badlife")
 	case "integrity":
@@ -386,7 +417,7 @@ func TestGrid(t *testing.T) {
 			return true
 		}
 		ok := try(func(c *Case) {})
-		for _, tm := range []string{"date-1", "date", "date+1", "mid", "expires-1", "expires", "expires+1"} {
+		for _, tm := range []string{"date-1", "date", "date+1", "mid", "expires-1", "expires", "expires+1", "date-ns", "date+ns", "expires-ns", "expires+ns", "expires+ms"} {
 			for _, life := range []int64{604799, 604800, 604801, 0, 1} {
 				ok = ok && try(func(c *Case) { c.Time = tm; c.Lifetime = life })
 			}
